@@ -52,7 +52,7 @@ struct slice {
 };
 
 static int		 message_flags_parse(struct message_flags *,
-    const char *);
+    const char *, const char *);
 static int		 message_flags_resolve(struct message_flags *, char,
     unsigned int **, unsigned int *);
 static struct header	*message_headers_alloc(struct message *);
@@ -196,7 +196,7 @@ message_parse(const char *dir, int dirfd, const char *path)
 
 	msg->me_body = message_parse_headers(msg);
 
-	if (message_flags_parse(&msg->me_mflags, msg->me_path))
+	if (message_flags_parse(&msg->me_mflags, msg->me_name, msg->me_path))
 		goto err;
 
 	return msg;
@@ -581,13 +581,18 @@ message_free_attachments(struct message **attachments)
 	VECTOR_FREE(attachments);
 }
 
+/*
+ * Parse the flags from the given file name. The full path is only used in
+ * diagnostics since directories may contain a colon as well.
+ */
 static int
-message_flags_parse(struct message_flags *mf, const char *path)
+message_flags_parse(struct message_flags *mf, const char *name,
+    const char *path)
 {
 	const char *p;
 	int i;
 
-	p = strrchr(path, ':');
+	p = strrchr(name, ':');
 	if (p == NULL)
 		return 0;
 	if (p[1] != '2' || p[2] != ',') {
